@@ -6,16 +6,17 @@ mp_boost.cpp is compiled); the driver evaluates the defining identity of each fu
 import vlib
 
 PROOF_MODULES = []   # the C32 .vo files are compiled directly with coqc (see the final report for the order)
-OBLIGATIONS_ALL = [
-    "C32/P_division.v", "C32/P_gcd_lcm.v", "C32/P_gcd_ext.v", "C32/P_mod_inverse.v", "C32/P_crt.v",
-    "C32/P_powermod.v", "C32/P_binomial_factorial.v", "C32/P_fibonacci_lucas.v", "C32/P_factorisation.v",
-    "C32/P_totient_mobius.v", "C32/P_quadratic_residues.v", "C32/P_polygonal.v",
-    "C32/P_perfect_power.v", "C32/P_defects.v", "C32/P_nonvacuous.v",
+OBLIGATIONS = [
+    "C32/P_division.v", "C32/P_division_unique.v", "C32/P_mp_fdiv.v", "C32/P_gcd_lcm.v", "C32/P_gcd_ext.v",
+    "C32/P_mod_inverse.v", "C32/P_crt.v", "C32/P_crt_reduced_refuted.v", "C32/P_mp_powm.v", "C32/P_powermod.v",
+    "C32/P_boost_powermod_refuted.v", "C32/P_factorial.v", "C32/P_binomial.v", "C32/P_fibonacci_lucas.v",
+    "C32/P_is_prime.v", "C32/P_factorisation.v", "C32/P_factor_trial_division.v", "C32/P_totient.v", "C32/P_mobius.v",
+    "C32/P_quadratic_residues.v", "C32/P_polygonal_number.v", "C32/P_polygonal_root.v", "C32/P_perfect_power_partial.v",
+    "C32/P_is_nth_residue_refuted.v", "C32/P_is_nth_residue_zero_exponent.v", "C32/P_lehman_complete_refuted.v",
+    "C32/P_boost_is_quad_residue_refuted.v", "C32/P_nonvacuous.v",
 ]
 
 # functions that have no Coq model: the driver's oracle is the only check
-OBLIGATIONS = []
-
 ORACLE_ONLY = {"powmq", "rho", "pm1", "prootl", "nthroot", "nextprime", "primepi"}
 
 SMALL_PRIMES = [2, 3, 5, 7, 11, 13, 17, 19, 23, 29, 31, 37, 41, 43, 47, 53, 59, 61, 67, 71, 73, 79, 83, 89, 97,
